@@ -195,6 +195,9 @@ class ParseMCNPCell:
             material_id = str(int(kws['material']))
         if kws['density'] is not None:
             density = normalize_float(kws['density'])
+        if int(material_id) == 0:
+            # LIKE n BUT MAT=0: a void cell has no density
+            density = None
         fillid = self.to_fillid(kws, lat_opt)
         kws['trcl'] = [] if not kws['trcl'] else [kws['trcl']]
 
